@@ -369,6 +369,10 @@ class Machine:
             k = pr[0]
             if k == 'deref':
                 v = get_path(cell.v, path)
+                if isinstance(v, StrV):
+                    # &str / &[u8] views are values of the text model: materialise the bytes for indexing
+                    cell, path = Cell(Agg([IntV(b, 'u8') for b in v.bytes()])), []
+                    continue
                 if not isinstance(v, Ref):
                     raise Inconclusive('deref of non-reference %r in %s (%s)' % (v, place_s, fr.item.name))
                 if v.cell.freed: raise UseAfterFree(v)
@@ -440,13 +444,19 @@ class Machine:
                 raise Inconclusive('cast kind ' + kind)
             return self.operand(st, fr, s)
         if s.startswith('&') and not s.startswith('&&'):
-            m = re.match(r'^&(?:mut |raw const |raw mut |fake shallow |fake )?(.*)$', s)
+            m = re.match(r'^&(?:mut |raw const \(fake\) |raw mut \(fake\) |raw const |raw mut |fake shallow |fake )?(.*)$', s)
             cell, path = self.resolve(st, fr, m.group(1))
             return Ref(cell, path)
         if s.startswith('discriminant('):
             v = self.read(st, fr, s[13:-1])
             if not isinstance(v, Enum): raise Inconclusive('discriminant of %r' % (v,))
-            return IntV(v.disc, 'isize')
+            ty = 'isize'
+            mm = re.match(r'^_(\d+)$', dest or '')
+            if mm:
+                t = fr.body.locals.get(int(mm.group(1)))
+                if t in INT_TYPES: ty = t
+            if isinstance(v.disc, int): return IntV(mask(v.disc, ty), ty)
+            return cast(IntV(v.disc, 'isize'), ty)
         if s.startswith('Len('):
             return self.len_of(self.read(st, fr, s[4:-1]))
         if s.startswith('CopyForDeref('):
